@@ -19,13 +19,15 @@ import (
 func execExtra(f []string) (string, bool) { return syncExec(f) }
 
 type genCtx struct {
-	r       *Rng
-	emit    func(string)
-	prec    uint64 // droplet multiple for valid amounts (10^(6-prec))
-	burn    uint64
-	spent   []cipher.SHA256    // inputs of accepted blocks (for re-spend attempts)
-	pending []coin.Transaction // txns injected so far in this history
-	blocks  []coin.SignedBlock // accepted blocks (for replays / duplicates)
+	r            *Rng
+	emit         func(string)
+	prec         uint64 // droplet multiple for valid amounts (10^(6-prec))
+	burn         uint64
+	avoidPending bool
+	conflictPct  int
+	spent        []cipher.SHA256    // inputs of accepted blocks (for re-spend attempts)
+	pending      []coin.Transaction // txns injected so far in this history
+	blocks       []coin.SignedBlock // accepted blocks (for replays / duplicates)
 }
 
 func (g *genCtx) node(name string) *node { return world.nodes[name] }
@@ -127,8 +129,42 @@ func (g *genCtx) makeTxn(n *node, kind string) (coin.Transaction, bool) {
 		return coin.Transaction{}, false
 	}
 	r := g.r
+	// mostly build transactions that are independent of the pending ones (so that pools with several
+	// simultaneously valid transactions arise); sometimes deliberately conflict
+	if g.avoidPending && !r.Chance(g.conflictPct) {
+		used := map[cipher.SHA256]bool{}
+		for _, p := range g.pending {
+			for _, in := range p.In {
+				used[in] = true
+			}
+		}
+		var free coin.UxArray
+		for _, u := range uxs {
+			if !used[u.Hash()] {
+				free = append(free, u)
+			}
+		}
+		if len(free) > 0 {
+			uxs = free
+		}
+	}
+	if kind != "locked" && !r.Chance(10) {
+		// avoid spending from the locked distribution addresses (a soft-rule failure) most of the time
+		var ok coin.UxArray
+		for _, u := range uxs {
+			if i := addrIndex[u.Body.Address]; i < 6 {
+				ok = append(ok, u)
+			}
+		}
+		if len(ok) > 0 {
+			uxs = ok
+		}
+	}
 	// choose 1-3 distinct inputs
 	k := 1 + r.Intn(3)
+	if g.avoidPending && r.Chance(60) {
+		k = 1
+	}
 	if k > len(uxs) {
 		k = len(uxs)
 	}
@@ -207,7 +243,7 @@ func (g *genCtx) makeTxn(n *node, kind string) (coin.Transaction, bool) {
 	var outs []coin.TransactionOutput
 	for i, a := range amounts {
 		dst := keys[r.Intn(nKeys)].addr
-		if r.Chance(15) {
+		if r.Chance(6) {
 			dst = keys[6+r.Intn(2)].addr // locked distribution addresses receive funds too
 		}
 		outs = append(outs, coin.TransactionOutput{Address: dst, Coins: a, Hours: hsplit[i]})
@@ -366,14 +402,14 @@ func genHistory(g *genCtx, profile string) {
 	}
 	g.prec = pow10(6 - prec)
 	g.burn = uint64([]int{2, 2, 3, 10, 10, 100}[r.Intn(6)])
-	gc := []uint64{100e12, 100e12, 1e9, 25e6, 1 << 63, 1<<64 - 1000, 3e6}[r.Intn(7)]
+	gc := []uint64{100e12, 100e12, 1e9, 25e6, 9223372036854000000, 18446744073709000000, 3e6, 1 << 63}[r.Intn(8)]
 	gt := []uint64{1000, 1426562704, 5}[r.Intn(3)]
 	arbF := 0
 	if r.Chance(25) {
 		arbF = 1
 	}
 	maxtxn := uint64(1024)
-	if r.Chance(50) {
+	if r.Chance(50) && profile != "c05" {
 		maxtxn = 32768
 	}
 	maxblk := maxtxn
@@ -386,6 +422,13 @@ func genHistory(g *genCtx, profile string) {
 		return
 	}
 	nOps := 8 + r.Intn(18)
+	g.avoidPending = r.Chance(60)
+	g.conflictPct = 20
+	if profile == "c05" {
+		nOps = 25 + r.Intn(30)
+		g.avoidPending = true
+		g.conflictPct = 25
+	}
 	for i := 0; i < nOps; i++ {
 		g.step(profile)
 	}
@@ -462,6 +505,23 @@ func (g *genCtx) step(profile string) {
 	r := g.r
 	P, F := g.node("P"), g.node("F")
 	c := r.Intn(100)
+	if profile == "c05" {
+		// publisher-pool heavy: many (conflicting) injections, frequent block creation, few other ops
+		switch x := r.Intn(100); {
+		case x < 55:
+			c = 0
+		case x < 68:
+			c = 30
+		case x < 72:
+			c = 50
+		case x < 92:
+			c = 52
+		case x < 96:
+			c = 82
+		default:
+			c = 88
+		}
+	}
 	switch {
 	case c < 30: // valid transaction
 		if t, ok := g.makeTxn(P, ""); ok {
@@ -644,4 +704,3 @@ func (g *genCtx) forged(P, F *node) {
 	sb := forgeBlock(P, txns, g.nextWhen(), uint64(r.Intn(3)), mut, secKey)
 	g.execBoth(&sb)
 }
-
